@@ -48,29 +48,34 @@ Record farm := mkFarm {
   f_bal_rew : Z;           (* reward tokens the farm holds as rewards *)
   f_bal_farming : Z;       (* farming tokens the farm holds as principal *)
   f_pool : Z;              (* sum of boosted pools: accumulated + remaining + undistributed *)
-  f_gen : Z; f_paid : Z    (* ghost: rewards generated / paid so far *)
+  f_gen : Z; f_paid : Z;   (* ghost: rewards generated / paid so far *)
+  f_out : list (Z * Z)     (* ghost: nonce -> amount outstanding (held by any account) *)
 }.
 
 Definition upd_core (f : farm) (supply reserve rps last : Z) : farm :=
   mkFarm supply reserve rps last (f_rate f) (f_produce f) (f_pct f) (f_factors f) (f_dsc f) (f_minep f)
          (f_pen f) (f_state f) (f_same f) (f_next f) (f_attrs f) (f_held f) (f_utot f)
-         (f_bal_rew f) (f_bal_farming f) (f_pool f) (f_gen f) (f_paid f).
+         (f_bal_rew f) (f_bal_farming f) (f_pool f) (f_gen f) (f_paid f) (f_out f).
 Definition upd_cfg (f : farm) (rate : Z) (produce : bool) (pct : Z) (factors : bool) (minep pen st : Z) : farm :=
   mkFarm (f_supply f) (f_reserve f) (f_rps f) (f_last f) rate produce pct factors (f_dsc f) minep pen st
          (f_same f) (f_next f) (f_attrs f) (f_held f) (f_utot f) (f_bal_rew f) (f_bal_farming f)
-         (f_pool f) (f_gen f) (f_paid f).
+         (f_pool f) (f_gen f) (f_paid f) (f_out f).
 Definition upd_tokens (f : farm) (next : Z) (at_ : list (Z * attrs)) (held utot : list (Z * Z)) : farm :=
   mkFarm (f_supply f) (f_reserve f) (f_rps f) (f_last f) (f_rate f) (f_produce f) (f_pct f) (f_factors f)
          (f_dsc f) (f_minep f) (f_pen f) (f_state f) (f_same f) next at_ held utot
-         (f_bal_rew f) (f_bal_farming f) (f_pool f) (f_gen f) (f_paid f).
+         (f_bal_rew f) (f_bal_farming f) (f_pool f) (f_gen f) (f_paid f) (f_out f).
+Definition upd_out (f : farm) (o : list (Z * Z)) : farm :=
+  mkFarm (f_supply f) (f_reserve f) (f_rps f) (f_last f) (f_rate f) (f_produce f) (f_pct f) (f_factors f)
+         (f_dsc f) (f_minep f) (f_pen f) (f_state f) (f_same f) (f_next f) (f_attrs f) (f_held f) (f_utot f)
+         (f_bal_rew f) (f_bal_farming f) (f_pool f) (f_gen f) (f_paid f) o.
 Definition upd_money (f : farm) (brew bfarm pool gen paid : Z) : farm :=
   mkFarm (f_supply f) (f_reserve f) (f_rps f) (f_last f) (f_rate f) (f_produce f) (f_pct f) (f_factors f)
          (f_dsc f) (f_minep f) (f_pen f) (f_state f) (f_same f) (f_next f) (f_attrs f) (f_held f) (f_utot f)
-         brew bfarm pool gen paid.
+         brew bfarm pool gen paid (f_out f).
 
 Definition init_farm (dsc : Z) (same : bool) : farm :=
   mkFarm 0 0 0 0 0 false 0 false dsc FARM_DEFAULT_MINUMUM_FARMING_EPOCHS FARM_DEFAULT_PENALTY_PERCENT
-         ST_Inactive same 1 [] [] [] 0 0 0 0 0.
+         ST_Inactive same 1 [] [] [] 0 0 0 0 0 [].
 
 (** ------------------------------------------------------------------ attributes algebra *)
 Definition ceil_avg (v1 w1 v2 w2 : Z) : result Z :=
@@ -115,11 +120,21 @@ Definition held (f : farm) (n h : Z) : Z := aget (f_held f) (hkey n h).
 Definition utot (f : farm) (u : Z) : Z := aget (f_utot f) u.
 
 (** caller [c] pays amount [x] of nonce [n] (the VM rejects insufficient balance and zero amounts) *)
-Definition pay_in (f : farm) (c : Z) (p : Z * Z) : result farm :=
+Definition outst (f : farm) (n : Z) : Z := aget (f_out f) n.
+
+(** account [c] gives up [x] of nonce [n] (the VM rejects insufficient balance and zero amounts) *)
+Definition debit_held (f : farm) (c : Z) (p : Z * Z) : result farm :=
   let '(n, x) := p in
   check (0 <? x) else EGuard;
   do b <- sub_chk (held f n c) x;
   Ok (upd_tokens f (f_next f) (f_attrs f) (aset (f_held f) (hkey n c) b) (f_utot f)).
+
+(** a position payment to the farm: every endpoint burns what it receives, so the amount stops
+    being outstanding *)
+Definition pay_in (f : farm) (c : Z) (p : Z * Z) : result farm :=
+  do f1 <- debit_held f c p;
+  do o <- sub_chk (outst f1 (fst p)) (snd p);
+  Ok (upd_out f1 (aset (f_out f1) (fst p) o)).
 
 Fixpoint pay_all (f : farm) (c : Z) (ps : list (Z * Z)) : result farm :=
   match ps with
@@ -130,7 +145,8 @@ Fixpoint pay_all (f : farm) (c : Z) (ps : list (Z * Z)) : result farm :=
 (** nft_create: new nonce with attributes, whole amount credited to [dst] *)
 Definition mint_pos (f : farm) (a : attrs) (dst : Z) : farm * Z :=
   let n := f_next f in
-  (upd_tokens f (n + 1) (f_attrs f ++ [(n, a)]) (aset (f_held f) (hkey n dst) (held f n dst + a_amt a)) (f_utot f), n).
+  let f1 := upd_tokens f (n + 1) (f_attrs f ++ [(n, a)]) (aset (f_held f) (hkey n dst) (held f n dst + a_amt a)) (f_utot f) in
+  (upd_out f1 (aset (f_out f1) n (outst f1 n + a_amt a)), n).
 
 Definition set_utot (f : farm) (u v : Z) : farm :=
   upd_tokens f (f_next f) (f_attrs f) (f_held f) (aset (f_utot f) u v).
@@ -297,7 +313,7 @@ Definition ep_claim_boosted (f : farm) (blk ep c : Z) (b : Z) : result (farm * f
   Ok (f2, [b]).
 
 Definition ep_transfer (f : farm) (n src dst amt : Z) : result (farm * fouts) :=
-  do f1 <- pay_in f src (n, amt);
+  do f1 <- debit_held f src (n, amt);
   Ok (upd_tokens f1 (f_next f1) (f_attrs f1) (aset (f_held f1) (hkey n dst) (held f1 n dst + amt)) (f_utot f1), []).
 
 Definition admin (c : Z) : bool := c =? OWNER.
